@@ -35,7 +35,7 @@ class IRCheck(Check):
 
 def random_tables(rng, n, depth_choices, **gk):
     for i in range(n):
-        t = Table()
+        t = Table(tails=rng if i % 2 else None)
         g = ExprGen(rng, **gk)
         root = g.gen(t, rng.choice(depth_choices))
         yield i, t, root
@@ -278,6 +278,11 @@ class C11(IRCheck):
                     pairs += [(mn, [255] * w), (mn, cbytes(1, w)), (vs[0], [0] * w), ([255] * w, [255] * w),
                               (cbytes(7, w), cbytes((1 << (8 * w)) - 2, w)), (cbytes((1 << (8 * w)) - 7, w), cbytes(2, w)),
                               (cbytes((1 << (8 * w)) - 7, w), cbytes((1 << (8 * w)) - 2, w))]
+                # special constants (0, 1, 2, a power of two in every byte, all ones) against a dividend / operand whose
+                # every byte is non-zero and different - in both positions: shortcuts for "easy" constants
+                full = [(0xA1 + 0x11 * i) % 256 or 1 for i in range(w)]
+                for sp in [0, 1, 2, (1 << (8 * w)) - 1] + [1 << (8 * i + rng.choice([0, 7])) for i in range(w)]:
+                    pairs += [(full, cbytes(sp, w)), (cbytes(sp, w), full)]
                 if g == "RshA":
                     pairs = [(a, cbytes(rng.choice([0, 1, 7, 8, 8 * w - 1, 8 * w, 8 * w + 1, 255]) % (1 << 8 * w), w))
                              for a, _ in pairs]
@@ -396,7 +401,7 @@ class C12(IRCheck):
         n = 500 if tier == "quick" else 8000
         gs = []
         for i in range(n):
-            t = Table()
+            t = Table(tails=rng if i % 2 else None)
             g = WGGen(rng, widths=(1, 2, 3, 4, 8) if i % 3 else (1, 2, 4, 8, 16))
             root = g.gen(t, rng.choice([1, 2, 3, 3, 4]))
             envs = make_envs(rng, t.regs(), t.mems(), 5)
@@ -481,7 +486,7 @@ class C13(IRCheck):
         tries = 0
         while len(gs) < n and tries < 50 * n:
             tries += 1
-            t = Table()
+            t = Table(tails=rng if tries % 2 else None)
             g = ExprGen(rng, p_less=rng.choice([0.25, 0.4, 0.5]))
             root = g.gen(t, rng.choice([1, 2, 3, 3, 4]))
             nless = sum(1 for x in t.nodes if x["k"] == "l")
